@@ -504,5 +504,67 @@ def replay_map_history(rng=None, rounds=40):
     return dict(confirmed=False, n=n, call='map histories', observed='conform')
 
 
+class PacketValues(Unit):
+    """Packet(**values) / set_values(**values): every given attribute holds exactly the given value afterwards - also None,
+    0, '', False, [] - and set_values returns the packet.  The tracker packets are built this way; a value that is silently
+    not stored (pixels=None on a re-used MapPacket) makes the tracker apply stale state."""
+    prop = 'C20'
+    name = 'C20.packet.set_values'
+    int_mode = 'int'
+    functions = ('minecraft.networking.packets.packet.Packet.__init__', 'minecraft.networking.packets.packet.Packet.set_values')
+
+    def run(self, I):
+        from minecraft.networking.packets import Packet
+        E = I.E
+        vals = dict(map_id=E.new_int('a'), scale=None, icons=[], width=0, is_locked=False, pixels=None, offset=None,
+                    note='', name=E.new_str('s'))
+        cls = (Packet, MapPacket, PlayerListItemPacket)[E.fork(3, 'class')]
+        try:
+            if E.fork(2, 'how') == 0:
+                p = I.call(cls, None, **vals)
+            else:
+                p = I.call(cls)
+                for k in vals:
+                    setattr(p, k, 'stale')
+                r = I.call(I.getattr_(p, 'set_values'), **vals)
+                E.check('set_values.returns-self', r is p)
+        except PyRaise as e:
+            E.check('set_values.no-raise', False, note='%r' % (e.exc,))
+            return None
+        wrong = sorted(k for k, v in vals.items() if getattr(p, k, 'missing') is not v)
+        E.check('set_values.stores-every-value', not wrong, note='attributes not holding the given value: %s' % wrong)
+        return None
+
+    def replay(self, model, label):
+        from minecraft.networking.packets import Packet
+        vals = dict(map_id=int(model.get('a', 0)) if model else 3, scale=None, icons=[], width=0, is_locked=False, pixels=None,
+                    offset=None, note='', name='n')
+        for cls in (Packet, MapPacket, PlayerListItemPacket):
+            for how in (0, 1):
+                if how == 0:
+                    k, p = native_call(cls, None, **vals)
+                else:
+                    p = cls()
+                    for a in vals:
+                        setattr(p, a, 'stale')
+                    k, r = native_call(p.set_values, **vals)
+                    if k == 'ok' and r is not p:
+                        return dict(confirmed=True, call='%s().set_values(...)' % cls.__name__, observed='returned %r' % (r,))
+                if k != 'ok':
+                    return dict(confirmed=True, call='%s(**values)' % cls.__name__, observed='%s %r' % (k, p))
+                wrong = sorted(a for a, v in vals.items() if getattr(p, a, 'missing') is not v)
+                if wrong:
+                    return dict(confirmed=True, call='%s with %s' % (('%s(**values)' if how == 0 else '%s().set_values(**values) over '
+                                'earlier values') % cls.__name__, ', '.join('%s=%r' % (a, vals[a]) for a in wrong)),
+                                observed='afterwards %s' % ', '.join('%s is %r' % (a, getattr(p, a, 'missing')) for a in wrong))
+        return dict(confirmed=False, call='Packet values', observed='conform')
+
+    def bounded(self, rng, tier):
+        rp = self.replay(None, '')
+        return dict(name='C20.packet.set_values.native', evaluations=6, bound='3 packet classes x constructor / set_values, 9 values incl. '
+                    'None, 0, "", False, []', failures=[dict(call=rp['call'], observed=rp['observed'], witness='set-values')]
+                    if rp['confirmed'] else [])
+
+
 def units(tier):
-    return [PlayerListStep(), PlayerListOrder(), MapPatch(), MapSet()]
+    return [PlayerListStep(), PlayerListOrder(), MapPatch(), MapSet(), PacketValues()]
